@@ -38,7 +38,7 @@ func Universe3WayW(withBad bool, window int) *Universe {
 	b.At("g")
 	tS := b.Transfer("tS", "A", []In{{Tx: root, Offset: 0}}, []Out{{To: "B", Amount: "10"}, {To: "A", Amount: "990"}})
 	b.Block("a1", "M")
-	b.Transfer("tA2", "A", []In{{Tx: tS, Offset: 1}}, []Out{{To: "B", Amount: "20"}, {To: "A", Amount: "965"}, {To: "$", Amount: "5"}})
+	b.Transfer("tA2", "A", []In{{Tx: tS, Offset: 1}}, []Out{{To: "B", Amount: "20"}, {To: "A", Amount: "965"}, {To: "$", Amount: "3"}, {To: "$", Amount: "2"}}) // two fee outputs: payFee / undoPayFee treat every one
 	b.Block("a2", "M")
 	b.Transfer("tA3", "B", []In{{Tx: tS, Offset: 0}}, []Out{{To: "A", Amount: "10"}})
 	b.Block("a3", "M")
@@ -61,7 +61,7 @@ func Universe3WayW(withBad bool, window int) *Universe {
 	b.Raw("pC1", BuildTx(TxSpec{Initiator: "A", Ins: []In{{Tx: pP, Offset: 0}}, Outs: []Out{{To: "C", Amount: "600"}}, Nonce: "pC1"}), false)
 	b.Raw("pC2", BuildTx(TxSpec{Initiator: "A", Ins: []In{{Tx: pP, Offset: 1}}, Outs: []Out{{To: "D", Amount: "399"}, {To: "$", Amount: "1"}}, Nonce: "pC2"}), false)
 	tA2 := b.U.Tx("tA2")
-	b.Raw("sFee", BuildTx(TxSpec{Initiator: "M", Ins: []In{{Tx: tA2, Offset: 2, Owner: "M"}}, Outs: []Out{{To: "B", Amount: "5"}}, Nonce: "sFee"}), false)
+	b.Raw("sFee", BuildTx(TxSpec{Initiator: "M", Ins: []In{{Tx: tA2, Offset: 2, Owner: "M"}}, Outs: []Out{{To: "B", Amount: "3"}}, Nonce: "sFee"}), false)
 	if withBad {
 		b.BadBlock("cc2", "a1", "M", nil, true)
 		b.BadBlock("dup3", "a2", "M", []*pb.Transaction{b.U.Tx("tS")}, false)
